@@ -173,6 +173,47 @@ impl Crdt for LS {
         let (t, back) = crate::sut::json_roundtrip(s);
         Some((t.map(|_| "text".to_string()), back))
     }
+    fn op_dot(op: &Self::Op) -> Option<String> {
+        // `Op::dot()` panics for an insert op carrying the empty identifier: no dot
+        catch_unwind(AssertUnwindSafe(|| op.dot())).ok().map(|d| dot(&d))
+    }
+    fn elements(s: &Self::S) -> Option<Vec<String>> {
+        Some(s.iter_entries().map(|(i, _)| show_ident(i)).collect())
+    }
+}
+
+/// `List` without freshness / element oracles (type `list_raw`: raw, possibly ill-formed ops)
+pub struct LSRaw;
+impl Crdt for LSRaw {
+    type S = L;
+    type Op = LO;
+    fn init() -> Self::S {
+        LS::init()
+    }
+    fn gen(s: &Self::S, actor: A, args: &[&str]) -> Option<Self::Op> {
+        LS::gen(s, actor, args)
+    }
+    fn parse_op(args: &[&str]) -> Option<Self::Op> {
+        LS::parse_op(args)
+    }
+    fn show_op(op: &Self::Op) -> String {
+        LS::show_op(op)
+    }
+    fn apply(s: &mut Self::S, op: Self::Op) {
+        LS::apply(s, op)
+    }
+    fn obs(s: &Self::S) -> String {
+        LS::obs(s)
+    }
+    fn validate_op(s: &Self::S, op: &Self::Op) -> String {
+        LS::validate_op(s, op)
+    }
+    fn eq(a: &Self::S, b: &Self::S) -> Option<bool> {
+        LS::eq(a, b)
+    }
+    fn persist(s: &Self::S) -> Option<(Result<String, String>, Option<Self::S>)> {
+        LS::persist(s)
+    }
 }
 
 /// a `List` state from literals (`[id=val,id=val]`, clock) – built through the type's own Deserialize impl, the only
